@@ -232,6 +232,135 @@ def h15d_layers(cfg, o1, l1, o2, l2, o3, l3):
     assert borders[1]._order > borders[0]._order
 
 
+# ------------------------------------------------------------------------------------------------ Style objects
+from numbers_parser.cell import Alignment, Style  # noqa: E402
+
+TEXT_ATTRS = ["alignment", "bold", "first_indent", "font_color", "font_name", "font_size", "italic", "left_indent", "name",
+              "right_indent", "strikethrough", "text_inset", "underline"]
+CELL_ATTRS = ["alignment", "bg_color", "bg_image", "first_indent", "left_indent", "right_indent", "text_inset", "text_wrap"]
+PUBLIC = ["alignment", "bg_image", "bg_color", "font_color", "font_size", "font_name", "bold", "italic", "strikethrough",
+          "underline", "first_indent", "left_indent", "right_indent", "text_inset", "text_wrap", "name"]
+
+
+def snapshot(st):
+    return [st.__dict__[a] for a in PUBLIC]
+
+
+def h15e_setattr(attr, flag, size, r, g, b):
+    """assigning one attribute of a Style stores exactly that attribute (colours / alignment converted to their classes),
+    leaves the other fifteen alone and marks the paragraph style and/or the cell style for rewriting on save - exactly
+    the one(s) the attribute lives in"""
+    assume(0 <= r <= 255 and 0 <= g <= 255 and 0 <= b <= 255 and 1 <= size <= 500)
+    st = Style()
+    st.__dict__["_update_text_style"] = False
+    st.__dict__["_update_cell_style"] = False
+    before = snapshot(st)
+    value = {"alignment": ("center", "middle"), "bg_image": None, "bg_color": (r, g, b), "font_color": (r, g, b),
+             "font_size": float(size), "font_name": "Courier", "bold": flag, "italic": flag, "strikethrough": flag,
+             "underline": flag, "first_indent": float(size), "left_indent": float(size), "right_indent": float(size),
+             "text_inset": float(size), "text_wrap": flag, "name": "My style"}[attr]
+    setattr(st, attr, value)
+    after = snapshot(st)
+    for i in range(len(PUBLIC)):
+        if PUBLIC[i] != attr:
+            assert after[i] is before[i]
+    got = st.__dict__[attr]
+    if attr in ("bg_color", "font_color"):
+        assert isinstance(got, RGB) and (got.r, got.g, got.b) == (r, g, b)
+    elif attr == "alignment":
+        assert isinstance(got, Alignment) and got == Alignment("center", "middle")
+    else:
+        assert got == value
+    assert st._update_text_style == (attr in TEXT_ATTRS)
+    assert st._update_cell_style == (attr in CELL_ATTRS)
+
+
+class StyleSource:
+    """model accessors a style is read from: one distinct value per attribute"""
+
+    def __init__(self, v):
+        self.v = v
+
+    def cell_alignment(self, cell):
+        return self.v["alignment"]
+
+    def cell_bg_color(self, cell):
+        return self.v["bg_color"]
+
+    def cell_font_color(self, cell):
+        return self.v["font_color"]
+
+    def cell_font_size(self, cell):
+        return self.v["font_size"]
+
+    def cell_font_name(self, cell):
+        return self.v["font_name"]
+
+    def cell_is_bold(self, cell):
+        return self.v["bold"]
+
+    def cell_is_italic(self, cell):
+        return self.v["italic"]
+
+    def cell_is_strikethrough(self, cell):
+        return self.v["strikethrough"]
+
+    def cell_is_underline(self, cell):
+        return self.v["underline"]
+
+    def cell_style_name(self, cell):
+        return self.v["name"]
+
+    def cell_first_indent(self, cell):
+        return self.v["first_indent"]
+
+    def cell_left_indent(self, cell):
+        return self.v["left_indent"]
+
+    def cell_right_indent(self, cell):
+        return self.v["right_indent"]
+
+    def cell_text_inset(self, cell):
+        return self.v["text_inset"]
+
+    def cell_text_wrap(self, cell):
+        return self.v["text_wrap"]
+
+    def text_style_object_id(self, cell):
+        return self.v["_text_style_obj_id"]
+
+    def cell_style_object_id(self, cell):
+        return self.v["_cell_style_obj_id"]
+
+
+def h15e_from_storage(bold, italic, strike, under, wrap, size, i1, i2, i3, inset, tid, cid):
+    """a style read from a cell carries, attribute by attribute, what the model reports for that attribute - none of the
+    four flags, three indents or two object ids ends up in another's place"""
+    assume(1 <= size <= 500)
+    v = {"alignment": Alignment("right", "bottom"), "bg_color": RGB(1, 2, 3), "font_color": RGB(4, 5, 6), "font_size": float(size),
+         "font_name": "Menlo", "bold": bold, "italic": italic, "strikethrough": strike, "underline": under, "name": "S",
+         "first_indent": float(i1), "left_indent": float(i2), "right_indent": float(i3), "text_inset": float(inset),
+         "text_wrap": wrap, "_text_style_obj_id": tid, "_cell_style_obj_id": cid}
+    st = Style.from_storage(Rec(_image_data=None), StyleSource(v))
+    for k in v:
+        got = st.__dict__[k]
+        assert got == v[k]
+    assert st.bg_image is None
+
+
+def h15e_validation(kind):
+    """wrongly typed attributes are refused with TypeError at construction"""
+    bad = {"size": dict(font_size=12), "font": dict(font_name=3), "bold": dict(bold=1), "italic": dict(italic="yes"),
+           "underline": dict(underline=None), "strikethrough": dict(strikethrough=0), "color": dict(font_color=(1, 2)),
+           "bg": dict(bg_color="red"), "ok": dict(font_size=12.0, bold=True, bg_color=(1, 2, 3))}[kind]
+    try:
+        Style(**bad)
+    except TypeError:
+        assert kind != "ok"
+        return
+    assert kind == "ok"
+
+
 SIDES = ["top", "right", "bottom", "left"]
 OUT = ["style attribute round trip (paragraph / cell style archives: nested protobuf construction and lookup)",
        "background images, fonts", "re-derivation of cell borders from the stored runs on reopen beyond 'highest order wins' (protobuf I/O)",
@@ -252,6 +381,20 @@ from numbers_parser.generated import TSPMessages_pb2 as TSPMessages  # noqa: E40
 from numbers_parser.generated import TSTArchives_pb2 as TSTArchives  # noqa: E402
 
 import numbers_parser.model as modelmod  # noqa: E402
+
+HARNESSES += [
+    Harness("H15e-setattr", h15e_setattr, dict(attr=Cases(PUBLIC), flag=BoolDom(), size=IntDom(), r=IntDom(), g=IntDom(), b=IntDom()),
+            bounds="each of the 16 public Style attributes assigned once; colour components, sizes and flags symbolic",
+            outside=["writing the style archives (nested protobuf construction)"]),
+    Harness("H15e-from_storage", h15e_from_storage,
+            dict(bold=BoolDom(), italic=BoolDom(), strike=BoolDom(), under=BoolDom(), wrap=BoolDom(), size=IntDom(), i1=IntDom(0, 99),
+                 i2=IntDom(0, 99), i3=IntDom(0, 99), inset=IntDom(0, 99), tid=IntDom(1, 2 ** 20), cid=IntDom(1, 2 ** 20)),
+            bounds="flags, indents, inset, size and object ids symbolic and independent",
+            stubs=["model accessors = a table of values, one per attribute"]),
+    Harness("H15e-validation", h15e_validation,
+            dict(kind=Cases(["size", "font", "bold", "italic", "underline", "strikethrough", "color", "bg", "ok"])),
+            bounds="one wrongly typed attribute at a time (concrete)"),
+]
 
 
 class ModProxy:
